@@ -5,7 +5,7 @@ import os
 
 import vt.boot  # noqa: F401
 
-from vt import comp, envs
+from vt import comp, envs, signatures
 
 REPO = vt.boot.REPO
 
@@ -44,11 +44,51 @@ def rparams(d):
 TN = ['TMoveAgent', 'TTurnAgent', 'TPickndrop', 'TMoveObstacles', 'TActuateDoor', 'TActuateBox', 'TTeleport']
 
 
+REG_INDEX = {'reset_function': 0, 'transition_functions': 1, 'transition_function': 1, 'reward_functions': 2, 'reward_function': 2,
+             'observation_function': 3, 'visibility_function': 4, 'terminating_function': 5, 'terminating_functions': 5}
+
+
+def components_of(data, tab, unknown):
+    """every component entry of a configuration tree (nested ones included): (registry index, interned name, interned keys)"""
+    out = []
+
+    def intern(s):
+        if s not in tab:
+            unknown.append(s)
+            return 10000 + len(unknown)
+        return tab[s]
+
+    def entry(ri, d):
+        out.append((ri, intern(d['name']), [intern(k) for k in d if k != 'name']))
+        for k, v in d.items():
+            if k in REG_INDEX:
+                if isinstance(v, list):
+                    for x in v:
+                        entry(REG_INDEX[k], x)
+                elif isinstance(v, dict):
+                    entry(REG_INDEX[k], v)
+
+    entry(0, data['reset_function'])
+    out.append((1, intern('chain'), [intern('transition_functions')]))           # factory_env_from_data wraps the lists itself
+    for d in data['transition_functions']:
+        entry(1, d)
+    out.append((2, intern('reduce_sum'), [intern('reward_functions')]))
+    for d in data['reward_functions']:
+        entry(2, d)
+    entry(3, data['observation_function'])
+    entry(5, data['terminating_function'])
+    return out
+
+
 def generate():
     out = ['(* GENERATED on every run by vt/configs.py from the YAML files shipped in /repo -- never edit, never commit. *)',
            'From Coq Require Import ZArith List Bool String.', 'From GV.Model Require Import Reset.', 'Import ListNotations.', 'Open Scope Z_scope.', '']
     names = []
+    tab = signatures.intern_table()
+    unknown = []
+    comps = []
     for fname, data, desc in envs.shipped_envs():
+        comps.extend(components_of(data, tab, unknown))
         ident = 'cfg_' + fname.replace('.yaml', '').replace('.', '_')
         names.append(ident)
         packaged = os.path.join(REPO, 'gym_gridverse', 'registered_envs', fname)
@@ -61,6 +101,13 @@ def generate():
         out.append(f'Definition {ident}_packaged_copy_identical : bool := {b(same)}.')
     out.append('Definition shipped_resets : list (string * rparams) := [' +
                '; '.join(f'("{n}"%string, {n}_reset)' for n in names) + '].')
+    out.append('(* every component entry of every shipped configuration: (registry index, interned name, interned parameter keys given) *)')
+    out.append('Definition shipped_components : list (Z * Z * list Z) := [' + '; '.join(f'({ri}, {n}, {zl(ks)})' for ri, n, ks in comps) + '].')
+    from gym_gridverse import gym as gvgym
+    ids_ok = all(os.path.exists(os.path.join(REPO, 'gym_gridverse', 'registered_envs', f)) and os.path.exists(os.path.join(REPO, 'yaml', f))
+                 for f in gvgym.STRING_TO_YAML_FILE.values())
+    out.append(f'Definition gym_ids_point_to_packaged_files : bool := {b(ids_ok)}.')
+    out.append(f'Definition number_of_gym_ids : Z := {len(gvgym.STRING_TO_YAML_FILE)}.')
     out.append('Definition shipped_packaged_identical : list bool := [' + '; '.join(f'{n}_packaged_copy_identical' for n in names) + '].')
     return '\n'.join(out) + '\n'
 
